@@ -68,6 +68,8 @@ type msgDef struct {
 	emitted int
 }
 
+type sharedPositions struct{ start, end []*msgpb.MsgPosition }
+
 type packDef struct {
 	stream  *streamDef
 	idx     int
@@ -77,6 +79,7 @@ type packDef struct {
 	id      []byte
 	fedSeq  int // logical clock at feed (0 = not fed)
 	emitSeq []int
+	shared *sharedPositions // position objects shared with the twin pack of another stream (same upstream pack)
 }
 
 type streamDef struct {
@@ -417,6 +420,11 @@ func (p *packDef) build() *msgstream.MsgPack {
 	mp := &msgstream.MsgPack{BeginTs: p.begin, EndTs: p.end,
 		StartPositions: []*msgpb.MsgPosition{{ChannelName: st.srcP, MsgID: p.id, MsgGroup: "grp", Timestamp: p.begin}},
 		EndPositions:   []*msgpb.MsgPosition{{ChannelName: st.srcP, MsgID: p.id, MsgGroup: "grp", Timestamp: p.end}}}
+	if p.shared != nil {
+		// the pinned msgdispatcher cuts one upstream pack into one pack per vchannel and hands the SAME position objects to all
+		// of them (groupAndParseMsgs): twin packs share theirs
+		mp.StartPositions, mp.EndPositions = p.shared.start, p.shared.end
+	}
 	for i, m := range p.msgs {
 		mid := append(append([]byte(nil), p.id...), byte('#'), byte('0'+i))
 		bm := msgstream.BaseMsg{BeginTimestamp: m.ts, EndTimestamp: m.ts, HashValues: []uint32{0}, MsgPosition: st.position(mid, m.ts)}
